@@ -25,6 +25,9 @@ CLAIMS["C05"] = dict(cat="other", tech="bit-provenance dataflow (known-bits latt
 CLAIMS["C19"] = dict(cat="other", tech="unsafe/who-may-call inventory, expression-agreement rules on Drop impls, dominance rules for the counter, MIR panic-site discharge",
    text="Structural half of the buffer abstraction: frozen inventory of unsafe code and of callers of the unsafe API; write-back exactness of every intermediate's Drop (set_len(len+initialized), [..initialized], parent += initialized) and tail-slice construction (ptr+len, capacity-len); the initialised counter is written only by advance (bounded by its assert) and extend (one increment per yielded slot); BufferRef is constructed only by new/cap_at and new only by the intermediates; every workspace advance(n) takes n from the call that filled uninitialized_mut(); no reachable panic site in the public API (capacity exhaustion is CapacityError; cap_at caps).",
    note=TB + "The 'under an address sanitizer' half of the property is dynamic by definition and is not applicable to static analysis; lifetime soundness is enforced by the borrow checker (compile_fail witnesses run in the thorough tier).")
+CLAIMS["C04"] = dict(cat="other", tech="MIR panic-site discharge with interprocedural preconditions; constant-budget obligations; who-may-call + type facts; dominance/edge-cut rules; bit-provenance for canonical headers",
+   text="No valid API call sequence panics (every reachable panic site discharged by dominating guards incl. the chunk-size assert against send()'s TooLongData test, or reviewed API precondition); datagrams are <= 1400 bytes by construction (only PacketBuilder::send calls Callback::send, with the output of Packet::write into a [u8; 1400] field); budgets over constants extracted from the code (header + chunk area + token <= MAX_PACKETSIZE, ArrayVec capacities, chunk count below 256 through the admission predicate); count/content pairing of num_chunks and data; the writer's headers are canonical for the reader (bit domain).",
+   note=TB + "Chunk bytes being bit-identical after a reader pass is value-level and not decided. Documented API preconditions (assert_online, reset/connect states, NUL-free reason) are the caller's.")
 NA = {}
 m = {"version": 1,
      "setup_cmd": "cd /verif/engine/mirfacts && CARGO_NET_OFFLINE=true cargo build --release --offline",
